@@ -149,6 +149,50 @@ def reinforce_rule(ctx, rule="ALG-reinforce"):
     n_s = len({x for x in subterms(r) if is_call(x) and x[1] == ("attr", SELF, "sample_function!")})
     if n_s != 1:
         ck.fail("one draw per site", f"{n_s} distinct sample terms")
+    # the score is that of the JOINT density of the site: when the site is batched the log-density tangent has one entry per lane and must be
+    # reduced over ALL lanes, whatever the shape of the continuation's output (an output of the lanes' shape may depend on every lane).
+    # Decided on finite situations: shape(score tangent) = (3,), shape(anything else) in {(), (3,)}; the conditionals of the returned tangent are
+    # resolved in each situation and every occurrence of the score tangent must then sit directly under an unrestricted jnp.sum.
+    from ..absint import Model, Unknown
+    raw = s.ret
+    jv = [x for x in subterms(raw) if x[0] == "idx" and is_call(x[1], name="jax.jvp") and is_const(x[2], 1)]
+    if raw[0] == "call" and len(raw[2]) == 2 and jv:
+        shapes = {x for x in subterms(raw) if is_call(x, name="jax.numpy.shape") and len(x[2]) == 1}
+        for other in ((), (3,)):
+            m = Model(evaluator=ev)
+            for sh in shapes:
+                m.bind(sh, (3,) if sh[2][0] in jv else other)
+
+            def resolve(t):
+                if not isinstance(t, tuple):
+                    return t
+                if t and t[0] == "ifexp":
+                    try:
+                        return resolve(t[2] if m.truth(t[1]) else t[3])
+                    except Unknown as e:
+                        raise AnalysisError(f"adev.REINFORCE.prim_jvp_estimate: unrecognised condition on the score tangent {short(t[1], ev)} ({e})")
+                return tuple(resolve(x) for x in t)
+            tan = resolve(raw[2][1])
+            bare = 0
+
+            def walk2(t):
+                nonlocal bare
+                if not isinstance(t, tuple):
+                    return
+                if t in jv:
+                    bare += 1
+                    return
+                if is_call(t, name="jax.numpy.sum") and len(t[2]) == 1 and not t[3] and t[2][0] in jv:
+                    return
+                for x in t:
+                    walk2(x)
+            walk2(tan)
+            if bare:
+                ck.fail("score tangent of a batched site reduced over all lanes",
+                        f"with a batched site (score tangent of shape (3,)) and a continuation output of shape {other!r} the tangent uses the per-lane score tangent "
+                        "un-reduced: each output component is weighted by its own lane's score only, and the derivative of component i with respect to the other lanes' "
+                        "parameters is dropped (biased jvp_estimate for a vector-valued program whose components couple lanes)")
+                break
     ck.done()
 
 
